@@ -25,6 +25,14 @@ use std::time::{Duration, Instant};
 
 const WATCHDOG: Duration = Duration::from_secs(15);
 const NONE: usize = usize::MAX;
+/// every `io::ErrorKind` a producer body can fail with (stable variants)
+const ERR_KINDS: [io::ErrorKind; 20] = [
+    io::ErrorKind::Other, io::ErrorKind::NotFound, io::ErrorKind::PermissionDenied, io::ErrorKind::ConnectionRefused,
+    io::ErrorKind::ConnectionReset, io::ErrorKind::ConnectionAborted, io::ErrorKind::NotConnected, io::ErrorKind::AddrInUse,
+    io::ErrorKind::AddrNotAvailable, io::ErrorKind::BrokenPipe, io::ErrorKind::AlreadyExists, io::ErrorKind::WouldBlock,
+    io::ErrorKind::InvalidInput, io::ErrorKind::InvalidData, io::ErrorKind::TimedOut, io::ErrorKind::WriteZero,
+    io::ErrorKind::Interrupted, io::ErrorKind::Unsupported, io::ErrorKind::UnexpectedEof, io::ErrorKind::OutOfMemory,
+];
 const MAX_SERVERS: usize = 5000;
 const MAX_POOLED_CONNS: usize = 256;
 
@@ -137,6 +145,8 @@ struct Spec {
     fail_at: usize,
     end: End,
     slow_us: u64,
+    /// index into `ERR_KINDS` of the error an `End::Err` producer fails with
+    err_kind: usize,
     /// writer: wait on the gate before event `k` (the harness opens it)
     gate: Option<(usize, Arc<Gate>)>,
     /// writer: sleep `ms` once before event `k`
@@ -192,7 +202,7 @@ impl Read for ScriptedReader {
         if self.pos >= limit {
             if self.spec.fail_at != NONE && self.pos >= self.spec.fail_at {
                 match self.spec.end {
-                    End::Err => return Err(io::Error::other("injected read failure")),
+                    End::Err => return Err(io::Error::new(ERR_KINDS[self.spec.err_kind % 20], "injected read failure")),
                     End::Vanish => producer_panic(self.spec.data.len() + self.spec.piece),
                     End::Ok => {}
                 }
@@ -244,7 +254,7 @@ fn writer_body(spec: Spec) -> BoxedWriter {
         }
         match spec.end {
             End::Ok => Ok(()),
-            End::Err => Err(io::Error::other("injected writer failure")),
+            End::Err => Err(io::Error::new(ERR_KINDS[spec.err_kind % 20], "injected writer failure")),
             End::Vanish => producer_panic(spec.data.len() + spec.evs.len()),
         }
     })
@@ -277,6 +287,9 @@ fn make_router(kind: &str, opts: StreamOpts) -> Option<Router> {
 // ------------------------------------------------------------------------------------------
 struct Servers {
     rt: tokio::runtime::Runtime,
+    /// one worker, ONE blocking-pool thread: hosts the `wsl` WebSocket servers, whose off-reader `next`
+    /// handlers then compete for a single thread
+    rt_small: tokio::runtime::Runtime,
     map: HashMap<String, SocketAddr>,
     /// raw connections kept open across cases (one per server): sequences of many streams — clean,
     /// failed, cancelled — on the SAME connection
@@ -290,7 +303,7 @@ struct Servers {
 impl Servers {
     fn new() -> Servers {
         let rt = tokio::runtime::Builder::new_multi_thread().worker_threads(4).max_blocking_threads(64).enable_all().build().unwrap();
-        Servers { rt, map: HashMap::new(), conns: HashMap::new(), sync_clients: HashMap::new(), async_clients: HashMap::new(), ws_clients: HashMap::new() }
+        Servers { rt, rt_small: tokio::runtime::Builder::new_multi_thread().worker_threads(1).max_blocking_threads(1).enable_all().build().unwrap(), map: HashMap::new(), conns: HashMap::new(), sync_clients: HashMap::new(), async_clients: HashMap::new(), ws_clients: HashMap::new() }
     }
     fn addr(&mut self, srv: &str, kind: &str, comp: u8, chunk: usize, depth: usize, level: i32) -> Option<SocketAddr> {
         let key = format!("{srv}|{kind}|{comp}|{chunk}|{depth}|{level}");
@@ -308,6 +321,7 @@ impl Servers {
             zstd_level: level,
             session_depth: depth,
         };
+        let opts = if chunk == 1 << 20 && comp == 1 && level == 3 && depth == 4 { StreamOpts::default() } else { opts };
         let router = make_router(kind, opts)?;
         let a = match srv {
             "tcp" => {
@@ -327,11 +341,74 @@ impl Servers {
                 });
                 Some(a)
             })?,
+            "wsl" => self.rt_small.block_on(async {
+                let l = tokio::net::TcpListener::bind("127.0.0.1:0").await.ok()?;
+                let a = l.local_addr().ok()?;
+                tokio::spawn(async move {
+                    let _ = repe::websocket_server::WebSocketServer::new(router).serve_listener(l, "/repe").await;
+                });
+                Some(a)
+            })?,
+            "tcpx" => {
+                // the blocking server behind a proxy that re-fragments both directions
+                let listener = std::net::TcpListener::bind("127.0.0.1:0").ok()?;
+                let real = listener.local_addr().ok()?;
+                let server = repe::Server::new(router);
+                std::thread::spawn(move || {
+                    let _ = server.serve(listener);
+                });
+                let front = std::net::TcpListener::bind("127.0.0.1:0").ok()?;
+                let a = front.local_addr().ok()?;
+                std::thread::spawn(move || fragmenting_proxy(front, real));
+                a
+            }
             _ => return None,
         };
         self.map.insert(key, a);
         Some(a)
     }
+}
+
+/// Accepts connections and forwards both directions to `real`, cutting every burst into pieces: the first
+/// 64 bytes of a burst one byte at a time (so a frame header, the 48/49 boundary and a short query arrive
+/// split), the rest in pieces of 1…1460 bytes, with an occasional millisecond stall.
+fn fragmenting_proxy(front: std::net::TcpListener, real: SocketAddr) {
+    static PROXY_SEED: AtomicU64 = AtomicU64::new(77);
+    for c in front.incoming() {
+        let Ok(client) = c else { continue };
+        let Ok(server) = std::net::TcpStream::connect(real) else { continue };
+        client.set_nodelay(true).ok();
+        server.set_nodelay(true).ok();
+        for (mut from, mut to) in [(client.try_clone().unwrap(), server.try_clone().unwrap()), (server, client)] {
+            let seed = PROXY_SEED.fetch_add(1, Ordering::Relaxed);
+            std::thread::spawn(move || {
+                let mut rng = Rng::new(seed);
+                let mut buf = vec![0u8; 1 << 16];
+                loop {
+                    let n = match from.read(&mut buf) {
+                        Ok(0) | Err(_) => break,
+                        Ok(n) => n,
+                    };
+                    let mut pos = 0;
+                    while pos < n {
+                        let k = if pos < 64 { 1 } else { 1 + rng.below(1460) as usize }.min(n - pos);
+                        if to.write_all(&buf[pos..pos + k]).is_err() {
+                            return;
+                        }
+                        pos += k;
+                        if rng.chance(1, 200) {
+                            std::thread::sleep(Duration::from_millis(1));
+                        }
+                    }
+                }
+                let _ = to.shutdown(std::net::Shutdown::Write);
+            });
+        }
+    }
+}
+
+fn is_tcp(srv: &str) -> bool {
+    srv == "tcp" || srv == "tcpx"
 }
 
 // ------------------------------------------------------------------------------------------
@@ -340,7 +417,7 @@ impl Servers {
 type WsStream = tokio_tungstenite::WebSocketStream<tokio_tungstenite::MaybeTlsStream<tokio::net::TcpStream>>;
 
 enum Conn {
-    Tcp { s: std::net::TcpStream, buf: Vec<u8>, stash: Vec<RawFrame> },
+    Tcp { s: std::net::TcpStream, buf: Vec<u8>, stash: Vec<RawFrame>, frag: Option<Rng> },
     Ws { ws: WsStream, stash: Vec<RawFrame> },
 }
 
@@ -348,11 +425,11 @@ static NEXT_REQ_ID: AtomicU64 = AtomicU64::new(1000);
 
 impl Conn {
     fn connect(sv: &Servers, srv: &str, addr: SocketAddr) -> Result<Conn, String> {
-        match srv {
+        match if is_tcp(srv) { "tcp" } else { "ws" } {
             "tcp" => {
                 let s = std::net::TcpStream::connect(addr).map_err(|e| format!("connect: {e}"))?;
                 s.set_nodelay(true).ok();
-                Ok(Conn::Tcp { s, buf: Vec::new(), stash: Vec::new() })
+                Ok(Conn::Tcp { s, buf: Vec::new(), stash: Vec::new(), frag: None })
             }
             _ => {
                 let url = format!("ws://{}/repe", addr);
@@ -381,7 +458,31 @@ impl Conn {
         let id = NEXT_REQ_ID.fetch_add(1, Ordering::Relaxed);
         let wire = RawFrame::request(id, notify, 1, path.as_bytes(), 1, body).to_vec();
         match self {
-            Conn::Tcp { s, .. } => s.write_all(&wire).map_err(|e| format!("write: {e}"))?,
+            Conn::Tcp { s, frag, .. } => match frag {
+                None => s.write_all(&wire).map_err(|e| format!("write: {e}"))?,
+                Some(rng) => {
+                    // the request leaves in pieces: byte by byte, or cut inside the header / at 48 / inside the query / inside the body
+                    let mut cuts: Vec<usize> = if wire.len() <= 160 && rng.chance(1, 2) {
+                        (1..wire.len()).collect()
+                    } else {
+                        let mut c = vec![1 + rng.below(47) as usize, 48, 49 + rng.below((wire.len() as u64 - 49).max(1)) as usize];
+                        if rng.chance(1, 2) { c.push(1 + rng.below(wire.len() as u64 - 1) as usize); }
+                        c
+                    };
+                    cuts.retain(|c| *c > 0 && *c < wire.len());
+                    cuts.sort();
+                    cuts.dedup();
+                    cuts.push(wire.len());
+                    let mut pos = 0;
+                    for c in cuts {
+                        s.write_all(&wire[pos..c]).map_err(|e| format!("write: {e}"))?;
+                        pos = c;
+                        if rng.chance(1, 6) {
+                            std::thread::sleep(Duration::from_millis(1 + rng.below(3)));
+                        }
+                    }
+                }
+            },
             Conn::Ws { ws, .. } => {
                 use tokio_tungstenite::tungstenite::Message as WsMsg;
                 sv.rt.block_on(async { ws.send(WsMsg::Binary(wire)).await.map_err(|e| format!("ws send: {e}")) })?
@@ -393,7 +494,7 @@ impl Conn {
     /// Wait for the response with this id; responses to other requests are kept for their own `wait`.
     fn wait(&mut self, sv: &Servers, id: u64) -> Result<RawFrame, String> {
         match self {
-            Conn::Tcp { s, buf, stash } => {
+            Conn::Tcp { s, buf, stash, .. } => {
                 if let Some(i) = stash.iter().position(|f| f.h.id == id) {
                     return Ok(stash.remove(i));
                 }
@@ -479,18 +580,21 @@ struct Params {
     end: End,
     /// zstd level of the server configuration (only meaningful with comp = 1)
     level: i32,
+    /// index into `ERR_KINDS` (only meaningful with end = err)
+    err_kind: usize,
 }
 
 impl Params {
     fn aux(&self) -> String {
         format!(
-            "L{}.S{}.P{}.I{}.F{}.Z{}.V{}",
+            "L{}.S{}.P{}.I{}.F{}.Z{}.K{}.V{}",
             self.len,
             self.seed,
             self.piece,
             self.interrupt,
             if self.fail_at == NONE { "-".to_string() } else { self.fail_at.to_string() },
             self.level,
+            self.err_kind,
             if self.variant.is_empty() { "-" } else { &self.variant }
         )
     }
@@ -504,6 +608,7 @@ impl Params {
                 "I" => self.interrupt = v.parse().ok()?,
                 "F" => self.fail_at = if v == "-" { NONE } else { v.parse().ok()? },
                 "Z" => self.level = v.parse().ok()?,
+                "K" => self.err_kind = v.parse().ok()?,
                 "V" => self.variant = if v == "-" { String::new() } else { v.to_string() },
                 _ => return None,
             }
@@ -556,6 +661,7 @@ fn build(p: &Params) -> Option<Built> {
         fail_at: p.fail_at,
         end: p.end,
         slow_us: if p.speed == 'p' { 1500 } else { 0 },
+        err_kind: p.err_kind,
         gate: None,
         pause: None,
         value: None,
@@ -891,6 +997,9 @@ fn exec_raw(sv: &mut Servers, out: &mut Out, idx: &str, p: &Params, script: &str
             obs.push("noconn".into());
         }
         Ok(mut conn) => {
+            if let Conn::Tcp { frag, .. } = &mut conn {
+                *frag = if p.speed == 'f' { Some(Rng::new(fnv(p.aux().as_bytes()) | 1)) } else { None };
+            }
             match do_open(&mut conn, sv, &resource) {
                 Err(e) => {
                     failures.push(("svs.raw.open_failed".into(), e));
@@ -905,7 +1014,8 @@ fn exec_raw(sv: &mut Servers, out: &mut Out, idx: &str, p: &Params, script: &str
                     let mut st = OracleState::default();
                     let mut shape = Vec::new();
                     let mut second_ids: Vec<u64> = Vec::new();
-                    for t in script.split(',') {
+                    let expanded = expand_script(script);
+                    for t in expanded.iter().map(|x| x.as_str()) {
                         n_tokens += 1;
                         if p.speed == 'c' {
                             std::thread::sleep(Duration::from_millis(2));
@@ -953,7 +1063,7 @@ fn exec_raw(sv: &mut Servers, out: &mut Out, idx: &str, p: &Params, script: &str
                                     }
                                     Ok(req_id) => {
                                         std::thread::sleep(Duration::from_millis(250));
-                                        let cancelled = if p.srv == "tcp" {
+                                        let cancelled = if is_tcp(&p.srv) {
                                             // the blocking server serves one request per connection at a time
                                             match Conn::connect(sv, &p.srv, addr) {
                                                 Ok(mut c2) => {
@@ -1108,6 +1218,22 @@ fn exec_raw(sv: &mut Servers, out: &mut Out, idx: &str, p: &Params, script: &str
     Some(RawResult { op, obs: obs.join(" "), nontrivial, failures, skip, pool: pool_key })
 }
 
+/// `n*64,c` → 64 × `n`, then `c`
+fn expand_script(script: &str) -> Vec<String> {
+    let mut out = Vec::new();
+    for t in script.split(',') {
+        match t.split_once('*') {
+            Some((tok, k)) => {
+                for _ in 0..k.parse::<usize>().unwrap_or(1).min(100_000) {
+                    out.push(tok.to_string());
+                }
+            }
+            None => out.push(t.to_string()),
+        }
+    }
+    out
+}
+
 fn first_diff(a: &[u8], b: &[u8]) -> Option<usize> {
     a.iter().zip(b.iter()).position(|(x, y)| x != y).or(if a.len() != b.len() { Some(a.len().min(b.len())) } else { None })
 }
@@ -1211,7 +1337,7 @@ fn params_from_duo(w: &[&str]) -> Option<(Params, Params, String)> {
         let mut p = Params {
             srv: w[2].into(), kind: w[3].into(), comp: 0, chunk: w[4].parse().ok()?, depth: w[5].parse().ok()?,
             speed: 'n', len: 0, seed: 0, piece: 8192, interrupt: 0, fail_at: NONE, variant: String::new(),
-            evs: vec![], end: End::parse(end)?, level: 3,
+            evs: vec![], end: End::parse(end)?, level: 3, err_kind: 0,
         };
         p.parse_aux(aux)?;
         if p.kind.starts_with("writer:") { p.evs = parse_evs(evs)?; }
@@ -1366,7 +1492,7 @@ fn exec_conc(sv: &mut Servers, out: &mut Out, idx: &str, srv: &str, chunk: usize
                     for j in 0..rounds {
                         let data = pat(7, (16 * i + j) % 251, l + 3 * i + j);
                         let spec = Spec {
-                            data: Arc::new(data), evs: vec![], piece: 8192, interrupt_every: 0, fail_at: NONE, end: End::Ok, slow_us: 0,
+                            data: Arc::new(data), evs: vec![], piece: 8192, interrupt_every: 0, fail_at: NONE, end: End::Ok, slow_us: 0, err_kind: 0,
                             gate: None, pause: None, value: None, typed_u8: None, typed_f64: None, complex: None,
                         };
                         let resource = register(spec);
@@ -1543,6 +1669,93 @@ fn exec_cnext(sv: &mut Servers, out: &mut Out, idx: &str, p: &Params, k: usize) 
 }
 
 // ------------------------------------------------------------------------------------------
+// many live sessions on one router: n streams opened on ONE connection, one chunk pulled from each,
+// then each drained in order.  Each must reproduce its own producer's bytes and end exactly once.
+// ------------------------------------------------------------------------------------------
+fn exec_many(sv: &mut Servers, out: &mut Out, idx: &str, srv: &str, chunk: usize, depth: usize, n: usize, l: usize) -> Option<RawResult> {
+    let pool_key: Option<String> = None;
+    let op = format!("many {idx} {srv} {chunk} {depth} {n} {l}");
+    out.begin(&op);
+    let addr = sv.addr(srv, "reader", 0, chunk, depth, 3)?;
+    let sv: &Servers = sv;
+    let mut failures: Vec<(String, String)> = Vec::new();
+    let mut toks: Vec<String> = Vec::new();
+    let mut distinct = true;
+    match Conn::connect(sv, srv, addr) {
+        Err(e) => failures.push(("svs.raw.connect".into(), e)),
+        Ok(mut conn) => {
+            let mut streams: Vec<(String, Vec<u8>, Option<u64>, Vec<u8>, usize, Option<String>)> = Vec::new();
+            for i in 0..n {
+                let want = pat(7, (16 * i) % 251, l + 3 * i);
+                let spec = Spec {
+                    data: Arc::new(want.clone()), evs: vec![], piece: 8192, interrupt_every: 0, fail_at: NONE, end: End::Ok, slow_us: 0, err_kind: 0,
+                    gate: None, pause: None, value: None, typed_u8: None, typed_f64: None, complex: None,
+                };
+                let resource = register(spec);
+                let id = match do_open(&mut conn, sv, &resource) {
+                    Ok(o) => Some(o.stream_id),
+                    Err(e) => { failures.push(("svs.many.open_failed".into(), format!("stream {i} of {n}: {e}"))); None }
+                };
+                if let Some(id) = id {
+                    if streams.iter().any(|s| s.2 == Some(id)) {
+                        distinct = false;
+                        failures.push(("svs.many.same_stream_id".into(), format!("stream {i} of {n} got id {id}, which an open stream already has")));
+                    }
+                }
+                streams.push((resource, want, id, Vec::new(), 0, None));
+            }
+            let mut probs = Vec::new();
+            // one pull from each, in order …
+            for s in streams.iter_mut() {
+                if let Some(id) = s.2 {
+                    match do_next(&mut conn, sv, id, &mut probs) {
+                        Pulled::Chunk { body, last } => { s.3.extend_from_slice(&body); if last == 1 { s.4 += 1; } }
+                        Pulled::Err => s.5 = Some("first `next` answered an error".into()),
+                        Pulled::Bad(e) => s.5 = Some(e),
+                    }
+                }
+            }
+            // … then each to its end
+            for s in streams.iter_mut() {
+                if let (Some(id), None, 0) = (s.2, &s.5, s.4) {
+                    for _ in 0..100_000 {
+                        match do_next(&mut conn, sv, id, &mut probs) {
+                            Pulled::Chunk { body, last } => { s.3.extend_from_slice(&body); if last == 1 { s.4 += 1; break; } }
+                            Pulled::Err => { s.5 = Some("a later `next` answered an error".into()); break; }
+                            Pulled::Bad(e) => { s.5 = Some(e); break; }
+                        }
+                    }
+                }
+            }
+            for (i, s) in streams.iter().enumerate() {
+                match &s.5 {
+                    Some(e) => {
+                        let sig = if e.contains("timeout") { "svs.many.timeout" } else { "svs.many.unexpected_error" };
+                        failures.push((sig.into(), format!("stream {i} of {n} (healthy producer, never released): {e} after {} of {} bytes", s.3.len(), s.1.len())));
+                        toks.push("err".into());
+                    }
+                    None if s.2.is_none() => toks.push("err".into()),
+                    None => {
+                        if s.3 != s.1 {
+                            failures.push(("svs.many.concat_mismatch".into(), format!("stream {i} of {n}: pulled {} bytes, its producer emitted {}; first difference {:?}", s.3.len(), s.1.len(), first_diff(&s.3, &s.1))));
+                        }
+                        if s.4 != 1 {
+                            failures.push(("svs.many.last_count".into(), format!("stream {i} of {n}: {} chunks carried last=1", s.4)));
+                        }
+                        toks.push(format!("{}:{}:{}", s.3.len(), fnv(&s.3), s.4));
+                    }
+                }
+                unregister(&s.0);
+            }
+            failures.truncate(6);
+            conn.close(sv);
+        }
+    }
+    let obs = format!("{idx} many {} {}", if distinct { "distinct" } else { "same" }, toks.join(" "));
+    Some(RawResult { op, obs, nontrivial: n >= 2, failures, skip: false, pool: pool_key })
+}
+
+// ------------------------------------------------------------------------------------------
 // paused producer (sync pullers): the writer sleeps once, longer than any plausible reply timeout,
 // before some chunk; `pull_to_vec` over the blocking `Client` on its own thread.  One-sided: `Ok`
 // must carry exactly the producer's bytes; an `Err` is a skip.
@@ -1616,6 +1829,20 @@ fn exec_hl(sv: &mut Servers, out: &mut Out, idx: &str, p: &Params, client: &str,
                 reader.read_to_end(&mut got)?;
                 Err(repe::RepeError::Io(io::Error::other("consumer rejects")))
             }
+            "c1" => {
+                // 64 one-byte reads, then reads of 2..7 bytes up to 256, then the rest at once
+                let mut one = [0u8; 7];
+                loop {
+                    let want = if got.len() < 64 { 1 } else if got.len() < 256 { 2 + (got.len() + salt) % 6 } else { break };
+                    let k = reader.read(&mut one[..want])?;
+                    if k == 0 {
+                        return Ok(got);
+                    }
+                    got.extend_from_slice(&one[..k]);
+                }
+                reader.read_to_end(&mut got)?;
+                Ok(got)
+            }
             "cpart" | "cpanic" => {
                 let mut small = [0u8; 16];
                 let mut n = 0;
@@ -1663,7 +1890,7 @@ fn exec_hl(sv: &mut Servers, out: &mut Out, idx: &str, p: &Params, client: &str,
                                 repe::pull_to_file(c, &res, &fpath)?;
                                 HlOut::Bytes(std::fs::read(&fpath)?)
                             }
-                            "cerr" | "cpart" | "cpanic" | "call" => {
+                            "cerr" | "cpart" | "cpanic" | "call" | "c1" => {
                                 let k = pl.clone();
                                 HlOut::Bytes(repe::pull_consume(c, &res, move |r| consume(&k, r, salt))?)
                             }
@@ -1724,7 +1951,7 @@ fn exec_hl(sv: &mut Servers, out: &mut Out, idx: &str, p: &Params, client: &str,
                                     repe::pull_to_file_async(&c, &res, &fpath).await?;
                                     HlOut::Bytes(std::fs::read(&fpath)?)
                                 }
-                                "cerr" | "cpart" | "cpanic" | "call" => {
+                                "cerr" | "cpart" | "cpanic" | "call" | "c1" => {
                                     let k = pl.clone();
                                     HlOut::Bytes(repe::pull_consume_async(&c, &res, move |mut r| consume(&k, &mut r, salt)).await?)
                                 }
@@ -1827,7 +2054,7 @@ fn params_from_raw(w: &[&str]) -> Option<(Params, String)> {
     let mut p = Params {
         srv: w[2].into(), kind: w[3].into(), comp: w[4].parse().ok()?, chunk: w[5].parse().ok()?, depth: w[6].parse().ok()?,
         speed: w[7].chars().next()?, len: 0, seed: 0, piece: 8192, interrupt: 0, fail_at: NONE, variant: String::new(),
-        evs: vec![], end: End::parse(w[10])?, level: 3,
+        evs: vec![], end: End::parse(w[10])?, level: 3, err_kind: 0,
     };
     p.parse_aux(w[12])?;
     if p.kind.starts_with("writer:") && p.comp == 0 { p.evs = parse_evs(w[9])?; }
@@ -1841,7 +2068,7 @@ fn params_from_hl(w: &[&str]) -> Option<(Params, String, String)> {
     let mut p = Params {
         srv: w[2].into(), kind: w[5].into(), comp: w[6].parse().ok()?, chunk: w[7].parse().ok()?, depth: w[8].parse().ok()?,
         speed: 'n', len: 0, seed: 0, piece: 8192, interrupt: 0, fail_at: NONE, variant: String::new(),
-        evs: vec![], end: End::parse(w[11])?, level: 3,
+        evs: vec![], end: End::parse(w[11])?, level: 3, err_kind: 0,
     };
     p.parse_aux(w[12])?;
     if p.kind.starts_with("writer:") { p.evs = parse_evs(w[10])?; }
@@ -1854,9 +2081,14 @@ struct Runner {
     n: usize,
     timeouts: usize,
     recent: HashMap<String, Vec<String>>,
+    /// the deeper search `check` starts after a broken proof / correspondence is bounded in time
+    deadline: Option<Instant>,
 }
 
 impl Runner {
+    fn expired(&self) -> bool {
+        self.deadline.map(|d| Instant::now() > d).unwrap_or(false)
+    }
     fn finish_case(&mut self, r: RawResult) {
         if r.skip && r.failures.is_empty() {
             self.out.count("svs.zstd.second_pull_differs_skipped");
@@ -1879,6 +2111,15 @@ impl Runner {
             }
         }
         self.out.case(&r.op, &r.obs, r.nontrivial);
+        if self.out.oracle_failures >= 12 || self.expired() {
+            // enough failing inputs (or the search budget is used up): finish now so the verdict comes quickly
+            self.out.count(if self.expired() { "svs.stopped_at_search_budget" } else { "svs.stopped_after_12_failures" });
+            let spare = self.out.dir.join("spare");
+            let _ = std::fs::create_dir_all(&spare);
+            let out = std::mem::replace(&mut self.out, Out::new(&spare));
+            out.finish();
+            std::process::exit(0);
+        }
         if self.timeouts >= 3 {
             // hung producers keep spinning; every further case would only wait for the watchdog again
             self.out.count("svs.aborted_after_timeouts");
@@ -1922,6 +2163,16 @@ impl Runner {
         let idx = format!("{}", self.n);
         self.count(p, "cnext");
         match exec_cnext(&mut self.sv, &mut self.out, &idx, p, k) {
+            Some(r) => self.finish_case(r),
+            None => self.out.count("svs.generator.unbuildable"),
+        }
+    }
+    fn many(&mut self, srv: &str, chunk: usize, depth: usize, n: usize, l: usize) {
+        self.n += 1;
+        let idx = format!("{}", self.n);
+        self.out.count("svs.op.many");
+        self.out.count(&format!("svs.many.live{n}"));
+        match exec_many(&mut self.sv, &mut self.out, &idx, srv, chunk, depth, n, l) {
             Some(r) => self.finish_case(r),
             None => self.out.count("svs.generator.unbuildable"),
         }
@@ -2012,7 +2263,7 @@ fn base(srv: &str, kind: &str, comp: u8, chunk: usize, depth: usize) -> Params {
     } else {
         3
     };
-    Params { srv: srv.into(), kind: kind.into(), comp, chunk, depth, speed: 'n', len: 0, seed: 0, piece: 8192, interrupt: 0, fail_at: NONE, variant: String::new(), evs: vec![], end: End::Ok, level }
+    Params { srv: srv.into(), kind: kind.into(), comp, chunk, depth, speed: 'n', len: 0, seed: 0, piece: 8192, interrupt: 0, fail_at: NONE, variant: String::new(), evs: vec![], end: End::Ok, level, err_kind: 0 }
 }
 
 /// Parameters that make `kind` emit (as close as possible to) `target` logical bytes.
@@ -2063,7 +2314,7 @@ fn boundary_lengths(chunk: usize, kmax: usize) -> Vec<usize> {
 fn main() {
     let args = Args::parse();
     quiet_panics();
-    let mut run = Runner { sv: Servers::new(), out: Out::new(&args.out), n: 0, timeouts: 0, recent: HashMap::new() };
+    let mut run = Runner { sv: Servers::new(), out: Out::new(&args.out), n: 0, timeouts: 0, recent: HashMap::new(), deadline: if args.out.to_string_lossy().ends_with("-search") { Some(Instant::now() + Duration::from_secs(150)) } else { None } };
     run.out.rule = "real Server (tcp) and WebSocketServer (ws), every producer kind (value: unit/string/struct; typed u8/f64; complex f32; reader with 1..100000-byte reads, Interrupted reads; writer with random write/flush scripts), chunk sizes {1,2,3,7,64,4096,1MiB}, payload lengths k*chunk-1,k*chunk,k*chunk+1 for k=0..4 plus random, depths 0..8, zstd on/off (for zstd the compressed stream is recorded from a separate pull of the same resource), slow producer / slow consumer, failure (Err and panic) injected at k*chunk-1,k*chunk,k*chunk+1 written bytes, scripts of next/cancel (request and notify)/next-past-the-end; then pull_to_vec, pull_value, pull_typed_slice, pull_complex_slice and their async forms over Client, AsyncClient and WebSocketClient. Distinct by op line without its index; non-trivial = at least two pulls or three script steps (raw), payload longer than one chunk or failing producer (hl)".into();
     if let Some(ops) = args.replay_ops() {
         for l in ops {
@@ -2084,6 +2335,10 @@ fn main() {
                     if p.parse_aux(w[8]).is_some() && p.chunk >= 1 {
                         run.cnext(&p, w[5].parse::<usize>().unwrap_or(2).clamp(1, 16));
                     }
+                }
+                Some("many") if w.len() == 7 => {
+                    let f: Vec<usize> = w[3..7].iter().filter_map(|x| x.parse().ok()).collect();
+                    if f.len() == 4 && f[0] >= 1 && f[2] <= 5000 { run.many(w[2], f[0], f[1], f[2], f[3]); }
                 }
                 Some("conc") if w.len() == 8 => {
                     let f: Vec<usize> = w[3..8].iter().filter_map(|x| x.parse().ok()).collect();
@@ -2266,6 +2521,155 @@ fn main() {
         if r.chance(1, 2) { p.seed = 1 + r.below(1 << 20); }
         run.cnext(&p, 2 + r.below(4) as usize);
     }
+    // (K) a producer failing with EVERY io::ErrorKind, at several offsets, reader / writer / behind zstd
+    for kind_ix in 0..20usize {
+        for (fi, form) in ["reader", "writer:0"].iter().enumerate() {
+            // a reader that keeps answering Interrupted is retried for ever by io::copy (that is std's contract): not a failure
+            if *form == "reader" && ERR_KINDS[kind_ix] == io::ErrorKind::Interrupted { continue; }
+            for oi in 0..(if thorough { 5 } else { 2 }) {
+                rot += 1;
+                let chunk = *r.pick(&[1usize, 3, 7, 64]);
+                let at = match (oi + kind_ix + fi) % 5 { 0 => 0, 1 => chunk.saturating_sub(1), 2 => chunk, 3 => chunk + 1, _ => 3 * chunk + 2 };
+                let comp = if (rot % 5) == 0 { 1 } else { 0 };
+                let mut p = base(srvs[rot % 2], form, comp, chunk, rot % 9);
+                p.end = End::Err;
+                p.err_kind = kind_ix;
+                if *form == "reader" { p.len = at + 1 + r.below(2 * chunk as u64 + 2) as usize; p.fail_at = at; p.piece = *r.pick(&[1usize, 3, 8192]); if comp == 1 { p.seed = 1 + r.below(1 << 20); } }
+                else { p.evs = random_evs(&mut r, at, chunk); if comp == 1 { p.variant = format!("e={}", evs_tok(&p.evs).replace(',', "_")); } }
+                run.out.count(&format!("svs.errkind.{:?}", ERR_KINDS[kind_ix]));
+                run.raw(&p, if oi % 2 == 0 { "N,n" } else { "n,n,n,n,n,n,n,n" });
+            }
+        }
+        for &(srv, client) in &[("tcp", "sync"), ("tcp", "async"), ("ws", "wsc")] {
+            rot += 1;
+            let chunk = *r.pick(&[1usize, 7, 64]);
+            let form = ["writer:0", "reader"][rot % 2];
+            if form == "reader" && ERR_KINDS[kind_ix] == io::ErrorKind::Interrupted { continue; }
+            let mut p = base(srv, form, (rot % 2) as u8, chunk, rot % 9);
+            p.end = End::Err;
+            p.err_kind = kind_ix;
+            let at = chunk * r.below(4) as usize + r.below(3) as usize;
+            if form == "reader" { p.len = at + 5; p.fail_at = at; p.piece = 3; } else { p.evs = random_evs(&mut r, at, chunk); }
+            run.hl(&p, client, *r.pick(&["vec", "call", "file"]));
+        }
+    }
+    // (M) many live, partly pulled streams on one router (1, 2, around 64, 200; thorough: 256, 1000)
+    {
+        let mut ns: Vec<(usize, &str)> = vec![(1, "tcp"), (2, "ws"), (63, "tcp"), (64, "ws"), (65, "tcp"), (66, "ws"), (200, "tcp")];
+        if thorough { ns.extend([(255, "ws"), (256, "tcp"), (257, "ws"), (1000, "tcp"), (65, "ws"), (129, "tcp")]); }
+        for (n, srv) in ns {
+            let chunk = *r.pick(&[3usize, 7, 64]);
+            run.many(srv, chunk, r.below(9) as usize, n, 2 * chunk + 1 + r.below(3 * chunk as u64) as usize);
+        }
+    }
+    // (G) the same event N times in a row: past-the-end pulls, unknown ids, malformed requests, duplicate cancels,
+    // unknown resources — the N-th is treated like the first; and streams of 255 / 256 / 257 chunks
+    {
+        let mut counts: Vec<usize> = vec![1, 2, 7, 8, 9, 16, 17, 64, 65, 256];
+        if thorough { counts.push(1000); }
+        for (ci, &k) in counts.iter().enumerate() {
+            for (ti, tmpl) in ["N,n*K", "u*K,N,u*K", "n,m*K,N,n", "n,c*K,n*K", "n,j*K,N", "o*K,n,o*K,N,n", "n,k*K,n"].iter().enumerate() {
+                if !thorough && k > 17 && (ci + ti) % 3 != 0 { continue; }
+                rot += 1;
+                let chunk = *r.pick(&[1usize, 3, 7]);
+                let kind = ["reader", "writer:0"][rot % 2];
+                let p = sized(&mut r, base(srvs[rot % 2], kind, 0, chunk, rot % 9), 3 * chunk + 1);
+                run.raw(&p, &tmpl.replace('K', &k.to_string()));
+            }
+        }
+        for n in if thorough { vec![255usize, 256, 257, 1000, 4096] } else { vec![255, 256, 257] } {
+            rot += 1;
+            let mut p = base(srvs[rot % 2], "reader", 0, 1, rot % 9);
+            p.len = n;
+            run.raw(&p, "N,n");
+            let client = ["sync", "async", "wsc"][rot % 3];
+            let mut p = base(if client == "wsc" { "ws" } else { "tcp" }, "reader", 0, 1, rot % 9);
+            p.len = n;
+            run.hl(&p, client, "vec");
+        }
+    }
+    // (K2) two knobs at their extremes at once: chunk x depth x compression/level
+    for &chunk in &[1usize, 1 << 20] {
+        for &depth in &[0usize, 1024] {
+            for &(comp, level) in &[(0u8, 3i32), (1, -131072), (1, 0), (1, 19)] {
+                rot += 1;
+                let kind = ["reader", "writer:0", "typed:u8"][rot % 3];
+                let target = if chunk == 1 { 5 + r.below(20) as usize } else { chunk + 1 + r.below(1 << 20) as usize };
+                let mut p = sized(&mut r, base(srvs[rot % 2], kind, comp, chunk, depth), target);
+                p.level = level;
+                if comp == 1 && kind == "reader" { p.seed = 1 + r.below(1 << 30); }
+                if kind.starts_with("writer") && comp == 1 { p.variant = format!("e={}", evs_tok(&p.evs).replace(',', "_")); }
+                run.raw(&p, "N,n");
+            }
+        }
+    }
+    // (I) fragmented I/O: raw requests leaving in 1-byte / 2–4 pieces (cuts inside the header, at 48, inside
+    // query and body); everything (raw, blocking and async clients) through a proxy that re-fragments both directions
+    for k in 0..(if thorough { 400 } else { 60 }) {
+        rot += 1;
+        let chunk = *r.pick(&[1usize, 3, 7, 64, 4096]);
+        let kind = *r.pick(&["reader", "writer:0", "typed:u8", "value"]);
+        let srv = if k % 2 == 0 { "tcp" } else { "tcpx" };
+        let target = r.below(5 * chunk as u64 + 3) as usize;
+        let mut p = sized(&mut r, base(srv, kind, (k % 5 == 0) as u8, chunk, rot % 9), target);
+        if p.comp == 1 && kind == "reader" { p.seed = 1 + r.below(1 << 30); }
+        if kind.starts_with("writer") && p.comp == 1 { p.variant = format!("e={}", evs_tok(&p.evs).replace(',', "_")); }
+        p.speed = 'f';
+        run.raw(&p, *r.pick(&["N,n", "n,c,n", "m,n,u,N,n", "n,j,N,o,n", "n,w,N,n", "N,n*9"]));
+    }
+    for k in 0..(if thorough { 200 } else { 36 }) {
+        rot += 1;
+        let chunk = *r.pick(&[1usize, 7, 64, 4096, 65536]);
+        let (kind, puller) = [("reader", "vec"), ("writer:0", "call"), ("typed:u8", "typed"), ("value", "value"), ("reader", "file"), ("complex", "complex")][k % 6];
+        let target = chunk * r.below(5) as usize + r.below(3) as usize;
+        let mut p = sized(&mut r, base("tcpx", kind, (k % 4 == 0) as u8, chunk, rot % 9), target);
+        if p.comp == 1 && kind == "reader" { p.seed = 1 + r.below(1 << 30); }
+        if k % 7 == 0 && (kind == "reader" || kind == "writer:0") {
+            p.end = End::Err; p.err_kind = k % 20;
+            if ERR_KINDS[p.err_kind] == io::ErrorKind::Interrupted { p.err_kind = 0; }
+            if kind == "reader" { p.fail_at = p.len / 2; }
+        }
+        run.hl(&p, ["sync", "async"][k % 2], puller);
+    }
+    // (L) a WebSocket server whose runtime has ONE blocking-pool thread: every off-reader `next` competes for it
+    {
+        run.conc("wsl", 7, 2, 5, if thorough { 12 } else { 4 }, 23);
+        run.many("wsl", 7, 4, if thorough { 100 } else { 20 }, 17);
+        for k in 0..(if thorough { 120 } else { 24 }) {
+            rot += 1;
+            let chunk = *r.pick(&[1usize, 3, 7, 64]);
+            match k % 4 {
+                0 => {
+                    let mut p = base("wsl", "reader", 0, chunk, r.below(9) as usize);
+                    p.len = chunk * (3 + r.below(10) as usize) + 1;
+                    run.cnext(&p, 2 + r.below(3) as usize);
+                }
+                1 => {
+                    let mut p = base("wsl", "writer:0", 0, chunk, r.below(9) as usize);
+                    let pre = 2 + r.below(3) as usize;
+                    p.evs = (0..pre + 3).map(|_| Ev::W(chunk)).collect();
+                    p.variant = format!("g{pre}");
+                    let mut script: Vec<&str> = vec!["n"; pre - 1];
+                    script.push("q");
+                    script.extend(["n", "n"]);
+                    run.raw(&p, &script.join(","));
+                }
+                2 => {
+                    let kind = *r.pick(&["reader", "writer:0", "value"]);
+                    let (d, target) = (r.below(9) as usize, r.below(6 * chunk as u64 + 2) as usize);
+                    let p = sized(&mut r, base("wsl", kind, (k % 8 == 2) as u8, chunk, d), target);
+                    if p.comp == 1 && kind != "value" { continue; }
+                    run.raw(&p, *r.pick(&["N,n", "n,c,n", "n,k,n,n", "u,N,u", "n,w,N,n"]));
+                }
+                _ => {
+                    let (kind, puller) = [("reader", "vec"), ("writer:0", "call"), ("typed:u8", "typed"), ("reader", "cpart")][(k / 4) % 4];
+                    let (d, target) = (r.below(9) as usize, r.below(6 * chunk as u64 + 2) as usize);
+                    let p = sized(&mut r, base("wsl", kind, 0, chunk, d), target);
+                    run.hl(&p, "wsc", puller);
+                }
+            }
+        }
+    }
     // (F2) two streams open at once on one connection: isolation of sessions, ids, lookahead
     for _ in 0..(if thorough { 600 } else { 60 }) {
         rot += 1;
@@ -2323,7 +2727,7 @@ fn main() {
                     run.hl(&p, client, puller);
                 }
                 // the consumer-closure entry points and the file pullers
-                for (kind, puller) in [("reader", "call"), ("writer:0", "call"), ("reader", "file"), ("writer:0", "file"), ("reader", "cpart"), ("writer:0", "cerr"), ("reader", "cpanic"), ("typed:u8", "cpart")] {
+                for (kind, puller) in [("reader", "c1"), ("writer:0", "c1"), ("reader", "call"), ("writer:0", "call"), ("reader", "file"), ("writer:0", "file"), ("reader", "cpart"), ("writer:0", "cerr"), ("reader", "cpanic"), ("typed:u8", "cpart")] {
                     rot += 1;
                     let chunk = *r.pick(&[1usize, 3, 7, 64, 4096]);
                     let target = match rot % 3 { 0 => chunk * (1 + r.below(4) as usize), 1 => r.below(20) as usize, _ => r.below(5 * chunk as u64 + 3) as usize };
